@@ -20,6 +20,15 @@ CHECKS = {
  "C19": dict(cat="model_checking", technique="explicit-state exhaustive enumeration of the token tree per adjacent-group definition; block-scanner reference model replayed against run_inner on every node",
    text="135 adjacent group definitions (5 group shapes x bare/optional/many x trailing positional x neighbouring switch) x all vectors up to 5-7 tokens; a block scanner (leading flag + contiguous members) gives the expected value or failure for every node.",
    note="Trusted: block scanner in checks/c19.rs. Alphabets of 6-8 tokens include foreign items and `--`.", ref="4/C19"),
+ "C08": dict(cat="model_checking", technique="explicit-state exhaustive enumeration (token tree + every misplacement of every deeper-level block) per command tree; level-aware reference scanner replayed against run_inner on every node; help text of every command path inspected",
+   text="504 command trees of depth <=3 (siblings, aliases, required/optional/fallback choice) x all vectors up to the bound, plus for every command path and alias the canonical sentence and every displacement of a deeper block to the left of its command name, unknown/duplicated/displaced command names; judged by the level-aware scanner; `path --help` must print the usage of exactly that level and only its names.",
+   note="Help clause uses lines whose enclosing levels are complete (the property quantifies over such lines); help on incomplete lines is C10's.", ref="4/C08"),
+ "C09": dict(cat="model_checking", technique="explicit-state exhaustive enumeration of the token tree per positional definition; reference scanner (separator + strictness rules) replayed against run_inner on every node",
+   text="676 definitions (every unambiguous suffix of 0..3 positionals x every strictness assignment, beside nothing/switch/argument/sub-command) x all vectors over words, dash-looking items, `--`, `--help`, `--name`, `--name=--`; the scanner fixes which side of the first `--` each positional may take from and that the right side is verbatim data.",
+   note="Help tokens left of `--` are in the unspecified region of this check (C10 covers them); right of `--` they are data and are judged.", ref="4/C09"),
+ "C18": dict(cat="model_checking", technique="explicit-state exhaustive enumeration of (definition x environment state x token tree); reference scanner with the env fallback rule replayed against run_inner in single-threaded workers that really set the variables",
+   text="Every item kind backed by one variable, two variables or a variable only, x every state (unset, empty, valid, invalid, non-UTF-8) of every declared variable x every vector up to the bound; line occurrences win, the variable supplies one occurrence otherwise, conversion applies equally; undeclared look-alike variables never change the outcome; --help shows the declared variable state.",
+   note="Process environment is mutated between cases inside single-threaded worker processes.", ref="4/C18"),
 }
 NOT_YET = {}
 def main():
